@@ -1,0 +1,29 @@
+//go:build verif
+
+package loader
+
+// Contracts for govc (see /verif/DESIGN.md). Comment-only file: no executable code.
+
+// C16: every loaded process has its name, a namespace, at least one replica and a positive launch timeout.
+//@ func assignDefaultProcessValues
+//@   requires p != nil
+//@   ensures defaults: forall n string :: n in p.Processes ==> p.Processes[n].Name == n && p.Processes[n].Namespace != "" && p.Processes[n].Replicas >= 1 && p.Processes[n].LaunchTimeout >= 1
+//@   ensures keys: forall n string :: n in p.Processes <==> n in old(p.Processes)
+//@   ensures default-namespace: forall n string :: n in old(p.Processes) && old(p.Processes[n].Namespace) == "" ==> p.Processes[n].Namespace == "default"
+//@   ensures kept: forall n string :: n in old(p.Processes) ==>
+//@        (old(p.Processes[n].Namespace) != "" ==> p.Processes[n].Namespace == old(p.Processes[n].Namespace)) &&
+//@        (old(p.Processes[n].Replicas) >= 1 ==> p.Processes[n].Replicas == old(p.Processes[n].Replicas)) &&
+//@        (old(p.Processes[n].LaunchTimeout) >= 1 ==> p.Processes[n].LaunchTimeout == old(p.Processes[n].LaunchTimeout)) &&
+//@        p.Processes[n].Command == old(p.Processes[n].Command) && p.Processes[n].WorkingDir == old(p.Processes[n].WorkingDir) &&
+//@        p.Processes[n].Environment == old(p.Processes[n].Environment) && p.Processes[n].DependsOn == old(p.Processes[n].DependsOn)
+//@   loop 1 invariant p.Processes != nil && (old(p.Processes) != nil ==> p.Processes == old(p.Processes))
+//@   loop 1 invariant forall n string :: n in p.Processes <==> n in old(p.Processes)
+//@   loop 1 invariant forall n string :: seen(n) && n in p.Processes ==> p.Processes[n].Name == n && p.Processes[n].Namespace != "" && p.Processes[n].Replicas >= 1 && p.Processes[n].LaunchTimeout >= 1
+//@   loop 1 invariant forall n string :: !seen(n) && n in p.Processes ==> p.Processes[n] == old(p.Processes[n])
+//@   loop 1 invariant forall n string :: seen(n) && n in old(p.Processes) ==>
+//@        (old(p.Processes[n].Namespace) == "" ==> p.Processes[n].Namespace == "default") &&
+//@        (old(p.Processes[n].Namespace) != "" ==> p.Processes[n].Namespace == old(p.Processes[n].Namespace)) &&
+//@        (old(p.Processes[n].Replicas) >= 1 ==> p.Processes[n].Replicas == old(p.Processes[n].Replicas)) &&
+//@        (old(p.Processes[n].LaunchTimeout) >= 1 ==> p.Processes[n].LaunchTimeout == old(p.Processes[n].LaunchTimeout)) &&
+//@        p.Processes[n].Command == old(p.Processes[n].Command) && p.Processes[n].WorkingDir == old(p.Processes[n].WorkingDir) &&
+//@        p.Processes[n].Environment == old(p.Processes[n].Environment) && p.Processes[n].DependsOn == old(p.Processes[n].DependsOn)
